@@ -3,6 +3,7 @@ The paragraph builder (`make_text_region_text`): one loop iteration as a relatio
 the chain of iterations (`Seg`), and the loop invariant that ties the `Res`-valued model to them.
 -/
 import PagexmlModel.Model.C16
+import PagexmlModel.Lemmas.C16Consts
 import PagexmlModel.Lemmas.Words
 import PagexmlModel.Lemmas.WordLoop
 
@@ -88,7 +89,7 @@ theorem makeLineText_spec (cc : CharClass) (hsp : cc.isSpace ' ' = true) (B : Br
         simp only [Bool.and_eq_true] at hc; exact hc.1
       obtain ⟨a, ha⟩ := pyLast2_ok_of_len h2
       simp only [hc, if_true, ha, pure, Except.pure, bind, Except.bind]
-      by_cases hsp2 : (a != ' ') = true
+      by_cases hsp2 : ([a] != Generated.C16.detachBlank) = true
       · simp only [hsp2, if_true]
         refine ⟨_, rfl, ?_⟩
         rw [← hkeep]
@@ -116,7 +117,7 @@ def dropPrefixIf (flag : Bool) (x : Str) : Str :=
 
 /-- the prefix flag for the next iteration -/
 def nextFlag (B : BreakSet) (endWord nt : Str) : Bool :=
-  B lowQuote && [lowQuote].isSuffixOf endWord && [lowQuote].isPrefixOf nt
+  B Generated.C16.quoteTested && [Generated.C16.quoteEnd].isSuffixOf endWord && [Generated.C16.quoteStart].isPrefixOf nt
 
 /-- `prev_words[-1] if len(prev_words) > 0 else ''` -/
 def endWordOf (pw : List Str) : Str := pw.getLast?.getD []
@@ -169,6 +170,7 @@ theorem StepRel.conserve {cc : CharClass} {B : BreakSet} {decide : Decide} {flag
   · intro h
     rw [hf'] at h
     simp only [nextFlag, Bool.and_eq_true] at h
+    rw [← consts_quote_tested_is_stripped]
     exact h.1.1
 
 theorem loopStep_spec (cc : CharClass) (hsp : cc.isSpace ' ' = true) (B : BreakSet) (decide : Decide)
